@@ -209,6 +209,10 @@ def main(run):
     # the same functional through the really compiled operator-with-BC (compiled ghost-cell setters), mode J
     cgrids = [["cart", [[0, 1], [-1, 3]], [3, 2], [False, False]], ["cart", [[0, 1], [-1, 3]], [2, 3], [True, False]],
               ["cart", [[0, 1], [0, 2], [-3, 3]], [2, 3, 2], [False, True, False]], ["cart", [[0, 1], [0, 2], [0, 3]], [2, 2, 2], [False, False, False]],
+              # every strict order of the three extents occurs (a face loop over the wrong extent overruns silently when the
+              # wrong one is larger and leaves ghost cells unset only when it is smaller)
+              ["cart", [[0, 1], [0, 2], [0, 3]], [2, 3, 4], [False, False, False]], ["cart", [[0, 1], [0, 2], [0, 3]], [4, 3, 2], [False, False, False]],
+              ["cart", [[0, 1], [0, 2], [0, 3]], [3, 2, 4], [False, True, False]],
               ["sph", [0.7, 2], 3], ["polar", 2, 3], ["cyl", [1, 2.5], [0, 1], [2, 3], False]]
     ccases = [{"grid": g, "what": w, "compiled": True} for g in cgrids for w in ("laplace", "divergence")]
     run.explore("checks.c05:functional_case", ccases, mode="J", part="(a) functional through compiled operators", chunksize=1, limit=2400)
